@@ -4,6 +4,7 @@ package main
 
 import (
 	"fmt"
+	"go/constant"
 	"go/token"
 	"go/types"
 	"sort"
@@ -201,6 +202,9 @@ func nonNilAssumes(fn *ssa.Function, v ssa.Value) []Assume {
 func runC10(c *Ctx) {
 	p := c.P
 	scope := runC10Bounds(c)
+
+	c10ReflectValidity(c, scope)
+	c10NoReentry(c)
 
 	// ---------------------------------------------------------------- D2
 	c.Rule("C10-D2", "handlers see only well-formed input: after every decode(...) the number of values is compared with the number of declared parameters before a handler is invoked "+
@@ -523,6 +527,202 @@ func init() {
 		scope := decodeScope(p, entries, map[string]bool{"sio": true, "jsonparser": true, "parser": true}, map[*ssa.Function]string{})
 		for fn, path := range scope {
 			fmt.Println(FuncName(fn), "<-", strings.Join(path, " → "))
+		}
+	}
+}
+
+// ---------------------------------------------------------------- reflect validity typestate
+
+// reflectMayBeInvalid: v can be the zero reflect.Value (calling almost any
+// method on it panics inside package reflect).
+func reflectMayBeInvalid(v ssa.Value, depth int, seen map[ssa.Value]bool) bool {
+	if depth > 8 || seen[v] {
+		return false
+	}
+	seen[v] = true
+	switch x := v.(type) {
+	case *ssa.Call:
+		sc := x.Call.StaticCallee()
+		if sc == nil {
+			return false
+		}
+		switch sc.String() {
+		case "(reflect.Value).MapIndex", "(reflect.Value).FieldByName", "(reflect.Value).FieldByNameFunc", "(reflect.Value).MethodByName", "reflect.Indirect":
+			return true
+		case "(reflect.Value).Elem":
+			// Elem of a freshly made pointer is valid
+			if rc, ok := x.Call.Args[0].(*ssa.Call); ok && rc.Call.StaticCallee() != nil {
+				switch rc.Call.StaticCallee().String() {
+				case "reflect.New":
+					return false
+				}
+			}
+			return true
+		}
+		return false
+	case *ssa.Phi:
+		for _, e := range x.Edges {
+			if reflectMayBeInvalid(e, depth+1, seen) {
+				return true
+			}
+		}
+	}
+	return false
+}
+
+// validityConds: the branch conditions of fn that, when true, imply that v is a valid reflect.Value.
+func validityConds(fn *ssa.Function, v ssa.Value) []ssa.Value {
+	var out []ssa.Value
+	isMethodOn := func(c ssa.Value, name string, recv ssa.Value) bool {
+		call, ok := c.(*ssa.Call)
+		if !ok || call.Call.StaticCallee() == nil || call.Call.StaticCallee().String() != "(reflect.Value)."+name {
+			return false
+		}
+		return call.Call.Args[0] == recv
+	}
+	// kindOf: c computes v.Kind(), directly or as the twin phi of v (same block, edge i is Kind() of v's edge i)
+	var kindOf func(c ssa.Value) bool
+	kindOf = func(c ssa.Value) bool {
+		if isMethodOn(c, "Kind", v) {
+			return true
+		}
+		pk, ok := c.(*ssa.Phi)
+		pv, ok2 := v.(*ssa.Phi)
+		if !ok || !ok2 || pk.Block() != pv.Block() || len(pk.Edges) != len(pv.Edges) {
+			return false
+		}
+		for i := range pk.Edges {
+			if !isMethodOn(pk.Edges[i], "Kind", pv.Edges[i]) {
+				// nested twin (second `if k == Interface { rv = rv.Elem(); k = rv.Kind() }`)
+				ek, okk := pk.Edges[i].(*ssa.Phi)
+				ev, okv := pv.Edges[i].(*ssa.Phi)
+				if !okk || !okv || ek.Block() != ev.Block() || len(ek.Edges) != len(ev.Edges) {
+					return false
+				}
+				for j := range ek.Edges {
+					if !isMethodOn(ek.Edges[j], "Kind", ev.Edges[j]) {
+						return false
+					}
+				}
+			}
+		}
+		return true
+	}
+	for _, b := range fn.Blocks {
+		for _, in := range b.Instrs {
+			switch x := in.(type) {
+			case *ssa.Call:
+				if isMethodOn(x, "IsValid", v) {
+					out = append(out, x)
+				}
+			case *ssa.BinOp:
+				if x.Op != token.EQL {
+					continue
+				}
+				k, isK := x.Y.(*ssa.Const)
+				if !isK || k.Value == nil || k.Value.Kind() != constant.Int || k.Int64() == 0 { // reflect.Invalid == 0
+					continue
+				}
+				if kindOf(x.X) {
+					out = append(out, x)
+				}
+			}
+		}
+	}
+	return out
+}
+
+func c10ReflectValidity(c *Ctx, scope map[*ssa.Function][]string) {
+	p := c.P
+	c.Rule("C10-D7", "reflect typestate on the decode side of parser/json: a reflect.Value that may be the zero Value (result of Elem of a possibly nil pointer/interface, MapIndex, FieldByName…) is used "+
+		"— a method other than IsValid/Kind/String called on it, or passed to another function — only on paths where v.IsValid() or a Kind comparison with a real kind holds; otherwise package reflect panics on the decode goroutine", 10)
+	safe := map[string]bool{"IsValid": true, "Kind": true, "String": true}
+	n := 0
+	var fns []*ssa.Function
+	for fn := range scope {
+		if strings.Contains(FuncName(fn), "jsonparser.reconstructor") {
+			fns = append(fns, fn)
+		}
+	}
+	sort.Slice(fns, func(i, j int) bool { return FuncName(fns[i]) < FuncName(fns[j]) })
+	for _, fn := range fns {
+		for _, b := range fn.Blocks {
+			for _, in := range b.Instrs {
+				call, ok := in.(*ssa.Call)
+				if !ok {
+					continue
+				}
+				sc := call.Call.StaticCallee()
+				if sc == nil {
+					continue
+				}
+				for ai, a := range call.Call.Args {
+					if !strings.HasSuffix(a.Type().String(), "reflect.Value") {
+						continue
+					}
+					isRecv := ai == 0 && strings.HasPrefix(sc.String(), "(reflect.Value).")
+					if isRecv && safe[sc.Name()] {
+						continue
+					}
+					if !isRecv && !p.inModule(sc) {
+						// handing a possibly zero Value to reflect/other libraries: Set, SetMapIndex(k, zero) deletes — not a panic by itself
+						continue
+					}
+					if !reflectMayBeInvalid(a, 0, map[ssa.Value]bool{}) {
+						continue
+					}
+					n++
+					var as []Assume
+					for _, cond := range validityConds(fn, a) {
+						as = append(as, assumeCond(cond, false))
+					}
+					r, trail := PrunedCanReach(fn, nil, as, func(i2 ssa.Instruction) bool { return i2 == ssa.Instruction(call) }, nil)
+					what := "method " + sc.Name() + " is called on it"
+					if !isRecv {
+						what = "it is passed to " + FuncName(sc)
+					}
+					c.Ob("C10-D7", FuncName(fn)+"/"+sc.Name()+"("+trunc(Term(a), 60)+")", call.Pos(), !r,
+						fmt.Sprintf("%s may be the zero reflect.Value (%d validity tests found) and %s on a path where neither IsValid() nor a Kind test holds: %s", trunc(Term(a), 80), len(as), what, trailString(p, trail)))
+				}
+			}
+		}
+	}
+	c.Note("C10-D7: %d uses of possibly zero reflect.Values in %d decode-side functions", n, len(fns))
+}
+
+// c10NoReentry: nothing called synchronously while the connection's parser mutex
+// is held may acquire that mutex again (Go mutexes are not re-entrant): the
+// receive loop would block forever on itself, the error would never be reported
+// and every later frame would be stuck behind it.
+func c10NoReentry(c *Ctx) {
+	p := c.P
+	c.Rule("C10-D8", "no self-deadlock on the parser mutex: no function reachable by synchronous calls (VTA call graph, closures and interface calls included) from a call made while "+
+		"serverConn.parserMu / Manager.parserMu is held acquires a mutex of that class — in particular the error path of onEIOPacket (onFatalError, onClose → resetParser) must leave the critical section or run on its own goroutine", 2)
+	useCGForLocks = true
+	edges := lockOrderEdges(p)
+	for _, cls := range []string{"sio.serverConn.parserMu", "sio.Manager.parserMu"} {
+		bad := false
+		for _, e := range edges {
+			if e.from == cls && e.to == cls && e.via != "direct" {
+				bad = true
+				c.Ob("C10-D8", cls+"@"+FuncName(e.fn), e.instr.Pos(), false, fmt.Sprintf("%s is held at this call and a function reachable from it (%s) locks a mutex of the same class: the receive path blocks on itself, the parse error is never reported and the connection is wedged", cls, e.via))
+			}
+		}
+		if !bad {
+			c.Ob("C10-D8", cls, p.Fn("sio", "serverConn.onEIOPacket").Pos(), true, "")
+		}
+	}
+	// the rule must see the lock at all: both onEIOPacket functions acquire their parserMu
+	for _, fnn := range []string{"serverConn.onEIOPacket", "Manager.onEIOPacket"} {
+		fn := p.Fn("sio", fnn)
+		n := 0
+		for _, cs := range Calls(fn) {
+			if op, ok := lockOpOf(cs.Instr); ok && strings.HasSuffix(op.lock, "parserMu") {
+				n++
+			}
+		}
+		if n == 0 {
+			anchorFail("C10-D8: %s does not lock parserMu (lock not recognised)", fnn)
 		}
 	}
 }
